@@ -140,6 +140,7 @@ func DefaultKnobs(r *Rng, sequential bool) simrt.Config {
 	if r.Intn(3) == 0 {
 		cfg.StallP = []float64{0.002, 0.01, 0.05}[r.Intn(3)]
 	}
+	cfg.PostUnlockYield = r.Intn(5) < 2
 	return cfg
 }
 
